@@ -980,6 +980,14 @@ class MultiSim:
             system.simulate(rng.choice([1, 2.5, 4]), print_summary=False)
 
 
+def worker_sim(system, index):
+    """The simulation function of a study run in worker processes."""
+    from simprocesd.model.factory_floor import Source, Sink
+    src = Source(name=f'w{index}_src', cycle_time=1)
+    Sink(name=f'w{index}_sink', upstream=[src])
+    system.simulate(3, print_summary=False)
+
+
 def multi_case(sh, i):
     """System creations hidden inside System.simulate_multiple_times(..., max_processes=0): afterwards the most
     recently created System is the last one it returned - new assets belong to it, only it can simulate."""
@@ -1002,6 +1010,25 @@ def multi_case(sh, i):
                 if rng.random() < 0.5:
                     before.simulate(rng.choice([1, 2]), print_summary=False)
                     simulated.add(before)
+            wrng = random.Random(seed ^ 0x5a5a5a)
+            if before is not None and wrng.random() < 0.3:
+                # a study of one or two replications run in worker processes: no System is created in this process, so
+                # the caller's own System stays the active one
+                nw = wrng.choice([1, 1, 2])
+                res = System.simulate_multiple_times(worker_sim, nw, wrng.choice([1, 2]))
+                hw = PartHandler(name='after_worker_runs')
+                if len(res) != nw or hw not in before.find_assets() or any(hw in r_.find_assets() for r_ in res):
+                    lc.fail('not_registered', f'an asset created after simulate_multiple_times(.., {nw}, max_processes>0) is '
+                            f'not registered with the caller\'s own System, which no System created in this process replaced')
+                else:
+                    try:
+                        before.simulate(0.5, print_summary=False)
+                        simulated.add(before)
+                        sh.count('own_system_continued_after_a_study_in_worker_processes')
+                    except RuntimeError as e:
+                        lc.fail('newest_system_refused', f'the caller\'s own System refused to simulate after '
+                                f'simulate_multiple_times(.., {nw}, max_processes>0), which creates no System in this '
+                                f'process: {e}')
             made = []
             n = rng.choice([1, 2, 3])
             systems = System.simulate_multiple_times(MultiSim(seed, made), n, 0)
